@@ -50,9 +50,21 @@ def gen_arc(rng):
         ex, ey = rng.uniform(-10, 10), rng.uniform(-10, 10)
         sx, sy = rng.uniform(-10, 10), rng.uniform(-10, 10)
         rx, ry = rng.choice([0.0, 1.0, -1.0, 2.0, -0.0]), rng.choice([0.0, 1.0, -2.0, 3.0])
-    elif k < 0.78:
+    elif k < 0.76:
         ex, ey = sx, sy  # coincident
         rx, ry = logu(rng), logu(rng)
+    elif k < 0.8:
+        # end points a hair apart but distinct (the "full circle as one large arc" idiom), or a drawing at a tiny scale
+        if rng.random() < 0.6:
+            sx, sy = float(rng.randint(-60, 60)), float(rng.randint(-60, 60))
+            ex, ey = sx + rng.choice([0.0, 5e-10, -3e-10, 1e-11]), sy + rng.choice([5e-10, -2e-10, 8e-10])
+            rx, ry = float(rng.randint(1, 60)), float(rng.randint(1, 60))
+        else:
+            sc = rng.choice([1e-10, 3e-10, 1e-12])
+            sx, sy, ex, ey = [sc * rng.randint(-20, 20) for _ in range(4)]
+            if (sx, sy) == (ex, ey):
+                ex += sc
+            rx, ry = sc * rng.randint(1, 15), sc * rng.randint(1, 15)
     else:
         sx, sy, ex, ey = [float(rng.randint(-20, 20)) for _ in range(4)]
         rx, ry = float(rng.randint(0, 15)), float(rng.randint(0, 15))
